@@ -1,4 +1,5 @@
 CONSTANT Variant = "faithful"
+CONSTANT Tier = "quick"
 INIT Init
 NEXT Next
 INVARIANT InvExpandedLaw
